@@ -87,7 +87,10 @@ class VFSZip(VFS_Real):
 
         cache_fspath = self.chain.getfspath(cache_filename)
         try:
-            self.dircache = shelve.open(cache_fspath, "r")
+            # Read the whole index now: a damaged store may open fine and
+            # only fail at the first look-up, outside of this guard.
+            with shelve.open(cache_fspath, "r") as db:
+                self.dircache = dict(db)
         except Exception:
             self.populate_cache()
             self.save_cache()
